@@ -362,6 +362,9 @@ def cases(ctx):
         for p in rng.sample(range(112 - 5), rng.choice((1, 2, 3))):
             e |= 1 << p  # keep DF bits intact so that the frame stays DF17
         yield "checkmsg", {"frame": "%028X" % (v ^ e)}
+        # corruption confined to the PI field: the remainder is the error itself (small and large values)
+        for e in (1, 2, 3, 1 << (k % 24), rng.getrandbits(24) | 1):
+            yield "checkmsg", {"frame": "%028X" % (v ^ e)}
         df = rng.choice((0, 4, 5, 11, 16, 20, 21))
         n = bits.df_len(df)
         f = bits.downlink(df, rng.getrandbits(n - 29), n, rng.getrandbits(24), rng.randrange(80))
